@@ -528,6 +528,10 @@ func (conn *Conn) String() string {
 // retain keeps a newly created fid in the table once the request that created it
 // has succeeded; from now on other requests may use it.
 func (fid *SrvFid) retain() {
+	verifPoint("fid.retain", fid.Fconn, fid)
+	fid.Lock()
+	// Conn.close looks at pending under this lock after closing done: either it
+	// sees the fid kept and destroys it, or this sees the connection gone
 	closed := false
 	if fid.Fconn != nil && fid.Fconn.done != nil {
 		select {
@@ -538,9 +542,6 @@ func (fid *SrvFid) retain() {
 		default:
 		}
 	}
-
-	verifPoint("fid.retain", fid.Fconn, fid)
-	fid.Lock()
 	if !closed {
 		fid.refcount++
 	}
